@@ -900,10 +900,44 @@ def force_inline(facts):
     return log
 
 
+def resolve_std_wrappers(facts):
+    """std's generic one-liners that only forward to a trait impl of the crate are read as that impl: `s.parse::<T>()` is
+    `<T as FromStr>::from_str(s)`, `x.into()` into a crate type U is `<U as From<X>>::from(x)` (the blanket impl)."""
+    keys = {j["key"] for j in facts["bodies"]}
+    by_id = {}
+    for k in keys:
+        iid = _impl_id(k)
+        if iid:
+            by_id[iid] = k
+    log = []
+    for j in facts["bodies"]:
+        for blk in j["blocks"]:
+            t = blk["term"]
+            if t["k"] != "call" or blk["cleanup"]:
+                continue
+            c = t.get("callee") or ""
+            tgt = None
+            if c == "core::str::<impl str>::parse" and len(t.get("substs") or []) == 1:
+                tgt = by_id.get(("std::str::FromStr", t["substs"][0], "from_str"))
+            elif c == "<T as std::convert::Into<U>>::into" and len(t.get("substs") or []) == 2:
+                tgt = by_id.get(("std::convert::From<%s>" % t["substs"][0], t["substs"][1], "from"))
+            if tgt is not None:
+                t["wrapper"] = c
+                t["callee"] = tgt
+                t["decl"] = tgt
+                t["local"] = True
+                t["substs"] = []
+                t["inst_substs"] = []
+                log.append({"in": j["key"], "wrapper": c, "now": tgt})
+    facts["std_wrappers_resolved"] = log
+    return log
+
+
 def apply(facts, known=None):
     """Expand helper calls in place.  Returns the log: list of {helper, into, sites}."""
     if known is None:
         known = known_functions()
+    resolve_std_wrappers(facts)
     # renames are resolved in rounds: a function told apart from its twin only by what it calls can be recognised once
     # the renamed functions it calls have their names back
     facts["renamed_types"] = [{"now": n, "anchor": m} for n, m in rename_types(facts)]
@@ -922,6 +956,8 @@ def apply(facts, known=None):
         pipeline.apply(facts)
         expand.apply(facts)
         unroll.apply(facts)
+        from . import specialise
+        specialise.apply(facts)
         return facts["inlined"]
     bodies = {j["key"]: j for j in facts["bodies"]}
     adts = {a["path"]: a for a in facts["adts"]}
@@ -997,4 +1033,6 @@ def apply(facts, known=None):
     pipeline.apply(facts)
     expand.apply(facts)
     unroll.apply(facts)
+    from . import specialise
+    specialise.apply(facts)
     return facts["inlined"]
